@@ -279,9 +279,8 @@ inline constexpr void Conversion<Unit::Pressure, Unit::Pressure::PoundPerSquareI
 }
 
 template <typename NumericType>
-inline const std::map<Unit::Pressure,
-                      std::function<void(NumericType* values, const std::size_t size)>>
-    MapOfConversionsFromStandard<Unit::Pressure, NumericType>{
+inline constexpr auto MapOfConversionsFromStandard<Unit::Pressure, NumericType>{
+  MakeConversionTable<Unit::Pressure, NumericType>({
       {Unit::Pressure::Pascal,
        Conversions<Unit::Pressure, Unit::Pressure::Pascal>::FromStandard<NumericType>            },
       {Unit::Pressure::Kilopascal,
@@ -298,12 +297,12 @@ inline const std::map<Unit::Pressure,
        Conversions<Unit::Pressure, Unit::Pressure::PoundPerSquareFoot>::FromStandard<NumericType>},
       {Unit::Pressure::PoundPerSquareInch,
        Conversions<Unit::Pressure, Unit::Pressure::PoundPerSquareInch>::FromStandard<NumericType>},
+})
 };
 
 template <typename NumericType>
-inline const std::map<Unit::Pressure,
-                      std::function<void(NumericType* const values, const std::size_t size)>>
-    MapOfConversionsToStandard<Unit::Pressure, NumericType>{
+inline constexpr auto MapOfConversionsToStandard<Unit::Pressure, NumericType>{
+  MakeConversionTable<Unit::Pressure, NumericType>({
       {Unit::Pressure::Pascal,
        Conversions<Unit::Pressure, Unit::Pressure::Pascal>::ToStandard<NumericType>            },
       {Unit::Pressure::Kilopascal,
@@ -320,6 +319,7 @@ inline const std::map<Unit::Pressure,
        Conversions<Unit::Pressure, Unit::Pressure::PoundPerSquareFoot>::ToStandard<NumericType>},
       {Unit::Pressure::PoundPerSquareInch,
        Conversions<Unit::Pressure, Unit::Pressure::PoundPerSquareInch>::ToStandard<NumericType>},
+})
 };
 
 }  // namespace Internal
